@@ -187,14 +187,14 @@ func workload(infoSchemaTables []string) []item {
 		q("found-rows", "SELECT SQL_CALC_FOUND_ROWS id FROM t1 ORDER BY id LIMIT 3", "SELECT FOUND_ROWS()"),
 		q("row-count", "SELECT id FROM t1 WHERE id = 1", "SELECT ROW_COUNT()"),
 		q("last-insert-id", "SELECT LAST_INSERT_ID()"),
-		q("info-columns-filter", "SELECT table_name, column_name, data_type, column_key FROM information_schema.columns WHERE table_schema = 'd'"),
-		q("info-tables-filter", "SELECT table_name, table_type, engine FROM information_schema.tables WHERE table_schema = 'd'"),
-		q("info-statistics-filter", "SELECT table_name, index_name, column_name, seq_in_index FROM information_schema.statistics WHERE table_schema = 'd'"),
-		q("info-join", "SELECT t.table_name, COUNT(c.column_name) FROM information_schema.tables t JOIN information_schema.columns c ON t.table_schema = c.table_schema AND t.table_name = c.table_name WHERE t.table_schema = 'd' GROUP BY t.table_name"),
-		q("info-views", "SELECT table_name, view_definition FROM information_schema.views WHERE table_schema = 'd'"),
-		q("use-db", "USE d", "SELECT DATABASE()"),
-		q("use-info-schema", "USE information_schema", "SELECT COUNT(*) FROM schemata", "USE d"),
-		q("qualified-names", "SELECT d.t1.id FROM d.t1 WHERE d.t1.id = 3"),
+		q("info-columns-filter", "SELECT table_name, column_name, data_type, column_key FROM information_schema.columns WHERE table_schema = 'c36db'"),
+		q("info-tables-filter", "SELECT table_name, table_type, engine FROM information_schema.tables WHERE table_schema = 'c36db'"),
+		q("info-statistics-filter", "SELECT table_name, index_name, column_name, seq_in_index FROM information_schema.statistics WHERE table_schema = 'c36db'"),
+		q("info-join", "SELECT t.table_name, COUNT(c.column_name) FROM information_schema.tables t JOIN information_schema.columns c ON t.table_schema = c.table_schema AND t.table_name = c.table_name WHERE t.table_schema = 'c36db' GROUP BY t.table_name"),
+		q("info-views", "SELECT table_name, view_definition FROM information_schema.views WHERE table_schema = 'c36db'"),
+		q("use-db", "USE c36db", "SELECT DATABASE()"),
+		q("use-info-schema", "USE information_schema", "SELECT COUNT(*) FROM schemata", "USE c36db"),
+		q("qualified-names", "SELECT c36db.t1.id FROM c36db.t1 WHERE c36db.t1.id = 3"),
 		q("begin-readonly", "START TRANSACTION READ ONLY", "SELECT COUNT(*) FROM t1", "COMMIT"),
 		q("begin-select-rollback", "BEGIN", "SELECT SUM(a) FROM t1", "ROLLBACK"),
 		{Kind: "binary-prepared", Stmts: []string{"SELECT id, b, c FROM t1 WHERE a = ? AND c > ?"}, Bind: []any{3, 100.5}, Inline: "SELECT id, b, c FROM t1 WHERE a = 3 AND c > 100.5"},
